@@ -263,7 +263,7 @@ example : h2HeadersLen 10 (flagPadded ||| flagPriority ||| flagEndHeaders) 3 = .
 example : h2HeadersLen 3 flagPadded 3 = .protoErr := by decide
 example : h2DataLen 5 flagPadded 4 = .ok 1 0 ∧ h2DataLen 5 flagPadded 5 = .protoErr := by decide
 example : h2Cont 16384 [0, 0, 2, 1, 0, 0, 0, 0, 1, 0x82, 0x86, 0, 0, 1, 9, 4, 0, 0, 0, 1, 0x84]
-    = .merged 12 [0, 0, 3, 1, 0, 0, 0, 0, 1, 0x82, 0x86, 0x84] false := by decide
+    = .merged 12 [0, 0, 3, 1, 0, 0, 0, 0, 1, 0x82, 0x86, 0x84] false := by decide +kernel
 
 /-! ## http_range.c -/
 
